@@ -440,7 +440,13 @@ GenProgram gen_program(Rng& r, const GenKnobs& k) {
   json funcs = json::array();
   for (int i = 0; i < k.functions; ++i) funcs.push_back(g.gen_func(i + 1));
   json body = json::array();
+  Scope sc0 = sc;
   for (int i = 0; i < k.top_statements; ++i) body.push_back(g.gen_stmt(sc, k.max_depth));
+  for (int b = 0; b < k.extra_bodies; ++b) {
+    Scope se = sc0; json eb = json::array();
+    for (int i = 0; i < k.extra_statements; ++i) eb.push_back(g.gen_stmt(se, k.max_depth));
+    p.extra_bodies.push_back(flatten(eb));
+  }
   p.ast = json{{"prelude", prelude}, {"funcs", flatten(funcs)}, {"body", flatten(body)}};
   for (auto& f : p.ast["funcs"]) f["body"] = flatten(f["body"]);
   p.fault_points = g.next_pt; p.user_errors = g.uerrs;
